@@ -339,6 +339,8 @@ func kbAlphabet() []kbOp {
 		{kind: "exportobj", key: 5, p1: "pw"}, {kind: "exportobj", key: 5, p1: ""}, {kind: "exportobj", key: 6, p1: "bad"},
 		{kind: "exportimport", key: 5, p1: "pw", p2: "enc", p3: "enc"}, {kind: "exportimport", key: 5, p1: "pw", p2: "enc", p3: "bad"}, {kind: "exportimport", key: 5, p1: "bad", p2: "enc", p3: "enc"},
 		{kind: "exportimport", key: 6, p1: uniPass, p2: uniPass, p3: uniPass},
+		// an export under the empty passphrase opens with the empty passphrase and with no other
+		{kind: "exportimport", key: 5, p1: "pw", p2: "", p3: ""}, {kind: "exportimport", key: 5, p1: "pw", p2: "", p3: "pw"},
 		// the same wrong passphrase for opening and for the new armor
 		{kind: "exportimport", key: 5, p1: "bad", p2: "bad", p3: "bad"},
 		// passphrases that differ only by surrounding whitespace are different passphrases
